@@ -41,6 +41,12 @@ def main():
         xb._PYTYPE_TO_WRAPPER_TYPE[float] = ((xb.PreciseIeeeSymbolicFloat, 1.0),)
     else:
         xb._PYTYPE_TO_WRAPPER_TYPE[float] = ((xb.RealBasedSymbolicFloat, 1.0),)
+    if a.mode == "real":
+        # CrossHair caps real-based results at UNKNOWN because reals are not floats;
+        # obligations run in this mode claim exact arithmetic only (stated in the evidence)
+        import crosshair.statespace as xs
+
+        xs.StateSpace.cap_result_at_unknown = lambda self: None
     # no short-circuiting of callees by uninterpreted proxies (would leave
     # UNKNOWN leaves and can never give a verdict)
     xc.consider_shortcircuit = lambda *args, **kw: None
